@@ -18,6 +18,7 @@ import (
 	"bytes"
 	"crypto/ecdsa"
 	"crypto/elliptic"
+	"crypto/tls"
 	crand "crypto/rand"
 	"crypto/x509"
 	"crypto/x509/pkix"
@@ -35,6 +36,7 @@ import (
 	"path/filepath"
 	"strings"
 	"sync"
+	"sync/atomic"
 	"testing"
 	"time"
 
@@ -89,12 +91,40 @@ type c19MainOut struct {
 }
 
 func c19FreeAddr(t *testing.T) string {
-	l, err := net.Listen("tcp", "127.0.0.1:0")
-	if err != nil {
-		t.Fatal(err)
+	// below the range the kernel hands out for ":0" listeners and outgoing connections, so that none of the
+	// many peer servers of the other scenarios ends up on the port between this probe and the node's own bind
+	for i := 0; i < 200; i++ {
+		port := 20000 + int(c19PortCtr.Add(1)*7+int64(os.Getpid()*131))%12000
+		l, err := net.Listen("tcp", fmt.Sprintf("127.0.0.1:%d", port))
+		if err != nil {
+			continue
+		}
+		l.Close()
+		return l.Addr().String()
 	}
-	defer l.Close()
-	return l.Addr().String()
+	t.Fatal("no free port")
+	return ""
+}
+
+var c19PortCtr atomic.Int64
+
+// c19IsNode reports whether the listener at addr presents the node's own certificate.
+func c19IsNode(addr, certPath string) bool {
+	want, err := os.ReadFile(certPath)
+	if err != nil {
+		return false
+	}
+	blk, _ := pem.Decode(want)
+	if blk == nil {
+		return false
+	}
+	c, err := tls.DialWithDialer(&net.Dialer{Timeout: 500 * time.Millisecond}, "tcp", addr, &tls.Config{InsecureSkipVerify: true})
+	if err != nil {
+		return false
+	}
+	defer c.Close()
+	cs := c.ConnectionState().PeerCertificates
+	return len(cs) > 0 && bytes.Equal(cs[0].Raw, blk.Bytes)
 }
 
 // c19SelfSigned writes a key pair the node can serve its own listener with.
@@ -279,7 +309,7 @@ func TestVerifC19Main(t *testing.T) {
 						peers[0].mu.Unlock()
 					} else if c, err := net.DialTimeout("tcp", self, 200*time.Millisecond); err == nil {
 						c.Close()
-						proceeded = true
+						proceeded = c19IsNode(self, certPath)
 					}
 					if proceeded {
 						out.Outcome = "proceeded"
